@@ -137,6 +137,13 @@ func c20Alphabet() [][2]protocol.EntryExt {
 		{mk(t3.UTC(), nil), mk(t3.In(east), nil)},
 		{mk(t3.UTC(), map[string]interface{}{}), mk(t3.In(east), map[string]interface{}{})},
 		{mk(t1.UTC(), "plain"), mk(t1.In(east), "plain")},
+		// instants that coincide in a narrower representation of the seconds (32 bits on the wire) or differ only
+		// in the seconds: different instants, the same record
+		{mk(time.Unix(5, 7).UTC(), rec()), mk(time.Unix(5, 7).In(west), rec())},
+		{mk(time.Unix(5+(1<<32), 7).UTC(), rec()), mk(time.Unix(5+(1<<32), 7).In(east), rec())},
+		{mk(time.Unix(-1, 0).UTC(), rec()), mk(time.Unix(-1, 0).In(east), rec())},
+		{mk(time.Unix((1<<32)-1, 0).UTC(), rec()), mk(time.Unix((1<<32)-1, 0).In(west), rec())},
+		{mk(t1.Add(time.Second).UTC(), rec()), mk(t1.Add(time.Second).In(west), rec())},
 	}
 }
 
